@@ -112,9 +112,21 @@ def fingerprint_items():
     return items
 
 
+def foreign_probes():
+    """State of other packages that the library is known to touch: pycountry's country database
+    (forcing its lazy load is itself harmless and idempotent)."""
+    try:
+        import pycountry
+        codes = sorted(c.alpha_2 for c in pycountry.countries)
+        return [("pycountry", "countries", (len(codes), hash(tuple(codes))))]
+    except Exception as e:  # noqa: BLE001
+        return [("pycountry", "countries", ("unavailable", type(e).__name__))]
+
+
 def fingerprint() -> str:
     import hashlib
-    return hashlib.sha1(repr(fingerprint_items()).encode("utf-8", "backslashreplace")).hexdigest()[:16]
+    items = fingerprint_items() + foreign_probes()
+    return hashlib.sha1(repr(items).encode("utf-8", "backslashreplace")).hexdigest()[:16]
 
 
 def diff_items(a, b):
